@@ -123,6 +123,39 @@ def witnesses(tier, seed, std='gnu++17'):
             ref = 'extern "C" void @R@(const %s* a, const %s* b, %s* r){ for(int i=0;i<%d;i++) for(int j=0;j<%d;j++) r[i*%d+j]=a[i]*b[j]; }' % (ct, ct, ct, n0, n1, n1)
             W.append(Witness('outer_%s_%s_%s' % (t, 'x'.join(map(str, d0)), 'x'.join(map(str, d1))), 'einsum.outer', {'type': t, 'd0': d0, 'd1': d1}, wit, ref, [treg('a', t, d0), treg('b', t, d1), treg('r', t, od, 'out'), rreg('rref', t, n0 * n1)],
                              [{'mod': 'wit', 'fn': '@W@', 'args': ['a', 'b', 'r']}, {'mod': 'ref', 'fn': '@R@', 'args': ['a', 'b', 'rref']}], [{'kind': 'equal', 'a': 'r', 'b': 'rref', 'cells': n0 * n1, 'mode': 'ALG'}]))
+    # every overload of inner / outer / dyadic: expression operands on either side, chains
+    # of three operands (coverage accounting: the AbstractTensor overloads were unreached)
+    def simple(wid, fam, t, params, call, out_dims, ref_body, mode='ALG', scalar=False):
+        ct = CTYPE[t]
+        sig = ', '.join('const %s& %s' % (tensor_t(t, d), nm) for nm, d in params)
+        rsig = ', '.join('const %s* %s' % (ct, nm) for nm, d in params)
+        if scalar:
+            wit = 'extern "C" void @W@(%s, %s* r){ *r = %s; }' % (sig, ct, call); oreg = [rreg('r', t, 1, role='out'), rreg('rref', t, 1)]; cells = 1
+        else:
+            wit = 'extern "C" void @W@(%s, %s& r){ r = %s; }' % (sig, tensor_t(t, out_dims), call); oreg = [treg('r', t, out_dims, 'out'), rreg('rref', t, prod(out_dims))]; cells = prod(out_dims)
+        ref = 'extern "C" void @R@(%s, %s* r){ %s }' % (rsig, ct, ref_body)
+        names = [nm for nm, d in params]
+        return Witness(wid, fam, {'type': t, 'call': call}, wit, ref, [treg(nm, t, d) for nm, d in params] + oreg,
+                       [{'mod': 'wit', 'fn': '@W@', 'args': names + ['r']}, {'mod': 'ref', 'fn': '@R@', 'args': names + ['rref']}], [{'kind': 'equal', 'a': 'r', 'b': 'rref', 'cells': cells, 'mode': mode}])
+    for t in ('f64', 'f32', 'i32'):
+        ct = CTYPE[t]
+        for dims in ([3], [8], [9], [2, 3], [4, 4]):
+            n = prod(dims); tag = 'x'.join(map(str, dims)); P = [('a', dims), ('b', dims), ('c', dims)]
+            red = lambda e: '%s s=0; for(int i=0;i<%d;i++) s += %s; *r = s;' % (ct, n, e)
+            W.append(simple('inner_ee_%s_%s' % (t, tag), 'einsum.inner.overloads', t, P, 'inner(a+b, b-c)', None, red('(a[i]+b[i])*(b[i]-c[i])'), scalar=True))
+            W.append(simple('inner_et_%s_%s' % (t, tag), 'einsum.inner.overloads', t, P, 'inner(a+b, c)', None, red('(a[i]+b[i])*c[i]'), scalar=True))
+            W.append(simple('inner_te_%s_%s' % (t, tag), 'einsum.inner.overloads', t, P, 'inner(a, b*c)', None, red('a[i]*(b[i]*c[i])'), scalar=True))
+            W.append(simple('inner3_%s_%s' % (t, tag), 'einsum.inner.overloads', t, P, 'inner(a, b, c)', None, red('a[i]*b[i]*c[i]'), scalar=True))
+        for (d0, d1) in (([3], [4]), ([2, 2], [2, 2]), ([4], [4]), ([2, 3], [2])):
+            n0, n1 = prod(d0), prod(d1); tag = 'x'.join(map(str, d0)) + '_' + 'x'.join(map(str, d1)); od = d0 + d1
+            P = [('a', d0), ('a2', d0), ('b', d1), ('b2', d1)]
+            body = lambda ea, eb: 'for(int i=0;i<%d;i++) for(int j=0;j<%d;j++) r[i*%d+j] = (%s)*(%s);' % (n0, n1, n1, ea, eb)
+            W.append(simple('outer_ee_%s_%s' % (t, tag), 'einsum.outer.overloads', t, P, 'outer(a+a2, b-b2)', od, body('a[i]+a2[i]', 'b[j]-b2[j]')))
+            W.append(simple('outer_et_%s_%s' % (t, tag), 'einsum.outer.overloads', t, P, 'outer(a+a2, b)', od, body('a[i]+a2[i]', 'b[j]')))
+            W.append(simple('outer_te_%s_%s' % (t, tag), 'einsum.outer.overloads', t, P, 'outer(a, b*b2)', od, body('a[i]', 'b[j]*b2[j]')))
+            W.append(simple('dyadic_tt_%s_%s' % (t, tag), 'einsum.outer.overloads', t, P, 'dyadic(a, b)', od, body('a[i]', 'b[j]')))
+            W.append(simple('dyadic_ee_%s_%s' % (t, tag), 'einsum.outer.overloads', t, P, 'dyadic(a-a2, b+b2)', od, body('a[i]-a2[i]', 'b[j]+b2[j]')))
+        W.append(simple('outer3_%s' % t, 'einsum.outer.overloads', t, [('a', [2]), ('b', [3]), ('c', [2])], 'outer(a, b, c)', [2, 3, 2], 'for(int i=0;i<2;i++) for(int j=0;j<3;j++) for(int k=0;k<2;k++) r[(i*3+j)*2+k] = a[i]*b[j]*c[k];'))
     return group_sort(W)
 
 
